@@ -324,6 +324,40 @@ fn shared_mappings(rep: &Report) {
     }
 }
 
+/// The same mapping reached from the other side: X -> Y as the forward direction of one definition and as the inverse
+/// direction of the opposite definition (of the same or of the other operator): the same bits
+fn shared_mappings_across_directions(rep: &Report) {
+    let pairs: [(&str, Direction, &str, Direction); 8] = [
+        ("unitconvert xy_in=deg xy_out=rad", Fwd, "adapt to=enuf_deg", Inv),
+        ("unitconvert xy_in=rad xy_out=deg", Inv, "adapt from=enuf_deg", Fwd),
+        ("unitconvert xy_in=deg xy_out=rad", Fwd, "unitconvert xy_in=rad xy_out=deg", Inv),
+        ("adapt to=enuf_deg", Fwd, "adapt inv from=enuf_deg", Fwd),
+        ("adapt from=enuf_deg", Fwd, "adapt inv to=enuf_deg", Fwd),
+        ("unitconvert xy_in=deg xy_out=grad", Fwd, "unitconvert xy_in=grad xy_out=deg", Inv),
+        ("adapt from=enuf_deg to=enuf_gon", Fwd, "adapt from=enuf_gon to=enuf_deg", Inv),
+        ("unitconvert xy_in=grad xy_out=rad", Fwd, "adapt from=neuf to=neuf_gon", Inv),
+    ];
+    let mut data: Vec<C4> = Vec::new();
+    for k in 1..=400 {
+        let k = k as f64;
+        data.push([k * 0.1, -k / 7., k, 2000. + k]);
+        data.push([k * 0.9, k * 0.45 - 90., -k, 2000. - k]);
+    }
+    for (a, da, b, db) in pairs {
+        let mut ctx = Minimal::default();
+        rep.eval(1);
+        let (na, nb) = (if da == Fwd { "fwd" } else { "inv" }, if db == Fwd { "fwd" } else { "inv" });
+        let (ra, rb) = (run_def(&mut ctx, a, da, &data), run_def(&mut ctx, b, db, &data));
+        let first = match (&ra, &rb) {
+            (Ok((ca, oa)), Ok((cb, ob))) if ca == cb => oa.iter().zip(ob.iter()).zip(data.iter()).find(|((x, y), _)| (0..4).any(|i| x[i].to_bits() != y[i].to_bits() && !(x[i] == 0. && y[i] == 0.))).map(|((x, y), d)| json!({"input": d, "a_gives": x, "b_gives": y})),
+            _ => Some(json!("one of the two definitions fails")),
+        };
+        if let Some(first) = first {
+            rep.violation(&format!("operators sharing a mapping disagree / {a} [{na}] vs {b} [{nb}]"), json!({"a": a, "a_direction": na, "b": b, "b_direction": nb, "first_difference": first}));
+        }
+    }
+}
+
 fn minimal_vs_plain(rep: &Report, outcomes: &Mutex<HashSet<u64>>) {
     for e in catalogue().iter().filter(|e| !e.needs_grids) {
         let data = tuple_alphabet(e.input);
@@ -427,6 +461,7 @@ pub fn run(tier: Tier) -> Report {
     tmerc_vs_btmerc(&rep, &ellipsoids, tier, &worst);
     operators_vs_methods(&rep, &ellipsoids, tier, &worst);
     shared_mappings(&rep);
+    shared_mappings_across_directions(&rep);
     minimal_vs_plain(&rep, &outcomes);
     series_vs_closed_forms(&rep, &ellipsoids, tier, &worst);
     crate::util::leave_private_workdir(&wd);
